@@ -468,7 +468,7 @@ func execC12(c *Case, sc *Script, o *Obs) {
 // ---------- C06 ----------
 
 func execC06(c *Case, sc *Script, o *Obs) {
-	b := Budgets{MaxYields: 25_000_000, GraceYields: 5_000_000, GraceTime: int64(time.Hour)}
+	b := Budgets{MaxYields: 80_000_000, GraceYields: 20_000_000, GraceTime: int64(time.Hour)}
 	refSc := *sc
 	refSc.Host.Costs = nil
 	// The runs under judgement come first and the sequential reference last: package-level
